@@ -215,6 +215,43 @@ class World:
             else:
                 sim.probes['loop_exception_seen'] += 1
 
+    def check_task_exceptions(self, ok=(), ignore=()):
+        """A tracked task (a caller of the library's API) that ended with an
+           exception which is not one of the documented kinds: a violation if
+           the exception was raised inside the library, a harness error if it
+           was raised by the scenario's own code."""
+
+        import traceback
+
+        for t in self.sim.tracked:
+            if not t.done() or t.cancelled():
+                continue
+
+            exc = t.exception()
+
+            if exc is None or isinstance(exc, ok) or isinstance(exc, ignore):
+                continue
+
+            frames = traceback.extract_tb(exc.__traceback__)
+            inner = frames[-1].filename if frames else ''
+            text = ''.join(traceback.format_exception(
+                type(exc), exc, exc.__traceback__))[-1500:]
+
+            if '/verif/' in inner:
+                self.close()
+                from .runner import HarnessError
+                raise HarnessError('scenario task %s raised:\n%s' %
+                                   (t.sim_name, text))
+
+            self.violation('unexpected-exception',
+                           'the call made by %s ended with %r, raised inside '
+                           'the library at %s' %
+                           (t.sim_name, exc,
+                            ':'.join(str(x) for x in frames[-1][:2])
+                            if frames else '?'),
+                           sig=type(exc).__name__)
+            return
+
     def result(self, nontrivial=True, sample=None):
         sim = self.sim
         main = sim.main
